@@ -179,7 +179,8 @@ def fixed_point_bounded_instance():
         if model in ('gcacgmm', 'vmfcacgmm'):
             cls = GCACGMMTrainer if model == 'gcacgmm' else VMFCACGMMTrainer
             # (the inline alignment between the two streams is an option of the integration models)
-            m = cls().fit(y, emb, initialization=init, iterations=it, inline_permutation_alignment=bool(inp['seed'] % 2))
+            kw_ = {'covariance_type': ['spherical', 'diagonal'][(inp['seed'] // 2) % 2]} if model == 'gcacgmm' else {}
+            m = cls().fit(y, emb, initialization=init, iterations=it, inline_permutation_alignment=bool(inp['seed'] % 2), **kw_)
             post = m.predict(y, emb)
             param = m.cacg.covariance_eigenvectors[..., -1]
         else:
@@ -188,7 +189,9 @@ def fixed_point_bounded_instance():
                 tr_ = CBMMTrainer(max_concentration=[1e5, 500.0, 50.0][inp['seed'] % 3])       # a finite concentration cap
             else:
                 tr_ = cls()
-            m = tr_.fit(y, initialization=init, iterations=it)
+            # every covariance structure of the Gaussian mixture
+            kw_ = {'covariance_type': ['full', 'diagonal', 'spherical'][(inp['seed'] // 2) % 3]} if model == 'gmm' else {}
+            m = tr_.fit(y, initialization=init, iterations=it, **kw_)
             post = m.predict(y)
             if model == 'cacgmm':
                 param = m.cacg.covariance_eigenvectors[..., -1]
@@ -224,7 +227,7 @@ def fixed_point_bounded_instance():
             cosv = np.abs(np.sum(np.conj(prm) * P, axis=-1)) / np.linalg.norm(prm, axis=-1)
             yield 'fitted-direction-points-at-prototype[%s]' % out['model'], bool(np.all(cosv > 0.99 - slack))
 
-    return Instance('C03', DN + '*Trainer.fit', 'bounded-separable-fixed-point', make, call, ensures, mode='bounded', bounded_n=60, frame=False)
+    return Instance('C03', DN + '*Trainer.fit', 'bounded-separable-fixed-point', make, call, ensures, mode='bounded', bounded_n=150, frame=False)
 
 
 def instances(tier):
